@@ -423,7 +423,7 @@ fn rop_strategy() -> impl Strategy<Value = ROp> {
 
 fn case_strategy() -> impl Strategy<Value = Case> {
     (
-        prop::sample::select(vec![1usize, 2, 10]),
+        prop::sample::select(vec![1usize, 2, 10, 0]),
         prop::collection::vec(0u8..16, 0..=2),
         prop::collection::vec(0u8..16, 1..=3),
         prop::collection::vec(prop::collection::vec(rop_strategy(), 1..=3), 1..=3),
